@@ -326,10 +326,23 @@ pub fn run_job(job: &Job) -> Local {
                 ChildEnd::Died(_, _, _) => {
                     // single-step mode names the case
                     match run_child(job, start, end, true) {
-                        ChildEnd::Done(_) => machinery(&format!(
-                            "job {} range {}..{}: child died in fast mode but not in single-step mode (uncontrolled nondeterminism)",
-                            job.job, start, end
-                        )),
+                        ChildEnd::Done(_) => {
+                            // every case passes when stepped: the death was not caused by a case
+                            // (an overloaded machine can push a healthy child past the wall-clock
+                            // watchdog — the one place where time enters a verdict). One more fast
+                            // run decides: clean => accept and note it, dies again => machinery error.
+                            match run_child(job, start, end, false) {
+                                ChildEnd::Done(l) => {
+                                    local.merge(l);
+                                    local.count("transient-child-death-retried");
+                                    break;
+                                }
+                                ChildEnd::Died(..) => machinery(&format!(
+                                    "job {} range {}..{}: child died in fast mode (twice) but not in single-step mode (uncontrolled nondeterminism)",
+                                    job.job, start, end
+                                )),
+                            }
+                        }
                         ChildEnd::Died(Some(ord), sig, detail) => {
                             // keep results of the cases before `ord`
                             if ord > start {
